@@ -148,6 +148,9 @@ pub struct Sim {
     pub intermediates: usize,
     /// the intermediate status packet to send (None: `04 ff 02 17 00`)
     pub intermediate_body: Option<Vec<u8>>,
+    /// status informations of a successful reservation, in order: 'R' carries the receipt number the reservation is booked
+    /// under, 'N' carries none, 'X' carries a provisional number that is not booked (only in front of 'R'). Default "R".
+    pub status_script: String,
     /// reply packets (after the ack) for ReadCard, built by the check
     pub card_replies: Vec<Vec<u8>>,
     /// status-information packets sent for a PartialReversal (before the completion), built by the check; empty = one default
@@ -181,6 +184,7 @@ impl Sim {
             booked: vec![],
             intermediates: 0,
             intermediate_body: None,
+            status_script: "R".into(),
             card_replies: vec![],
             reversal_status: vec![],
             chatter: vec![],
@@ -393,12 +397,16 @@ fn respond(g: &mut Sim, kind: Kind, apdu: &[u8], d: &Directive) -> Vec<Vec<u8>> 
                 None => (0, None, None),
             };
             g.ledger.push(PreAuth { receipt: rc, amount, currency, reference });
-            let mut set = vec![("result_code", opt_u(Some(0))), ("amount", opt_u(Some(amount))), ("trace_number", opt_u(Some(g.receipts_issued as u64))), ("currency", opt_u(currency))];
-            if d.outcome != Outcome::NoReceipt {
-                set.push(("receipt_no", opt_u(Some(rc))));
+            for shape in g.status_script.clone().chars() {
+                let mut set = vec![("result_code", opt_u(Some(0))), ("amount", opt_u(Some(amount))), ("trace_number", opt_u(Some(g.receipts_issued as u64))), ("currency", opt_u(currency))];
+                match shape {
+                    'R' if d.outcome != Outcome::NoReceipt => set.push(("receipt_no", opt_u(Some(rc)))),
+                    'X' if d.outcome != Outcome::NoReceipt => set.push(("receipt_no", opt_u(Some((rc + 4998) % 9999 + 1)))),
+                    _ => {}
+                }
+                let si = make(&t, "StatusInformation", &set);
+                r.push(enc(&t, "StatusInformation", &si));
             }
-            let si = make(&t, "StatusInformation", &set);
-            r.push(enc(&t, "StatusInformation", &si));
             r.push(completion_packet());
         }
         Kind::PendingQuery => {
@@ -474,7 +482,12 @@ pub async fn serve(mut s: DuplexStream, sim: Shared, conn: usize) {
             let d = g.plan.get(&(kind, occ)).or(g.default_plan.get(&kind)).cloned().unwrap_or_default();
             let t = g.now();
             g.log.push(SEv::Rx { conn, t, kind, occ, apdu: p.clone() });
+            // a request that is not even acknowledged (fault at position 0) is not processed: the terminal's books stay as they were
+            let books = (g.ledger.clone(), g.dangling, g.booked.clone(), g.receipts_issued);
             let r = respond(&mut g, kind, &p, &d);
+            if matches!(d.fault, Some((_, 0))) {
+                (g.ledger, g.dangling, g.booked, g.receipts_issued) = books;
+            }
             (d, r)
         };
         for (i, rep) in replies.iter().enumerate() {
@@ -551,6 +564,15 @@ pub async fn serve(mut s: DuplexStream, sim: Shared, conn: usize) {
                         return;
                     }
                 }
+            }
+        }
+        // `Close` at a position behind the last packet: the exchange completes and the terminal then drops the idle connection
+        if let Some((FaultKind::Close, pos)) = d.fault {
+            if pos >= replies.len() {
+                let mut g = sim.lock().unwrap();
+                let t = g.now();
+                g.log.push(SEv::Fault { conn, t, kind: FaultKind::Close, pos });
+                return;
             }
         }
     }
